@@ -51,6 +51,14 @@ func (r *rng) p(pct int) bool         { return r.n(100) < pct }
 func (r *rng) pick(xs []string) string { return xs[r.n(len(xs))] }
 func (r *rng) fork() *rng             { return &rng{s: r.next()} }
 
+// seededRng mixes the seed so that neighbouring seeds give unrelated streams (the raw splitmix64 increment would
+// make seed k+1 the stream of seed k shifted by one draw).
+func seededRng(seed uint64) *rng {
+	r := &rng{s: (seed + 1) * 0xD6E8FEB86659FD93}
+	r.next()
+	return r.fork()
+}
+
 type lineWriter struct {
 	f *os.File
 	w *bufio.Writer
@@ -145,7 +153,7 @@ func main() {
 	case "gen":
 		w := newLineWriter(*out)
 		id := 0
-		a.gen(&rng{s: *seed*0x9e3779b97f4a7c15 + 12345}, *n, *tier, func(j J) {
+		a.gen(seededRng(*seed), *n, *tier, func(j J) {
 			j["id"] = id
 			id++
 			w.emit(j)
